@@ -7,12 +7,21 @@
         Cholesky:  ((shape (l ...)))                      shape = ((n0 rows) (n1 cols))
         LDL^T:     ((shape (l ...) (d ...)))
         QR:        ((qshape (q ...) rshape (r ...)))      qshape = ((n0 rows) (n1 rows))
+     (8 4 which (n0 n1) rows cols (x ...) scale)   FLOAT oracle: which 1 = Cholesky, 2 = LDL^T,
+        3 = QR on the f64 matrix with entries (num/den) * 2^scale (x ... are Rat encodings of a
+        SYMMETRIC matrix for which = 1, 2).  The harness checks the defining identities on f64
+        (L L^T = A, L D L^T = A, Q^T Q = I, Q R = A within 1e-9 relative; exact zeros / unit
+        diagonal where the algorithm writes them; R's sub-diagonal entries at most 1e-12 * |A|;
+        all entry points bit for bit) and answers (1) when present and all identities hold, ()
+        when absent, (0 code) when an identity fails.  The model answers with the PRESENCE it
+        predicts exactly over the rationals: Cholesky present <-> square and every LDL^T pivot
+        positive; LDL^T present <-> the exact LDL^T is; QR present <-> rows >= cols.
    Outside the language (bad case, both sides): square Rat Cholesky of more than 4 rows and Rat QR needing
    more than one reflection — the polynomial sqrt stand-in makes the exact rationals explode (a
    3x2 QR takes the extracted model more than a minute); Fp has no such limit.
    `sqrt` is the fixed polynomial of Model/Num.v on both sides: the factors are compared exactly
    as computation skeletons (same field operations, same sqrt calls, same comparisons). *)
-From Coq Require Import List ZArith NArith Bool.
+From Coq Require Import List ZArith NArith QArith Bool.
 From EasyML Require Import Base.Sx Model.Num Model.LinAlg Model.Decomp Run.RunC07.
 Import ListNotations.
 
@@ -28,8 +37,32 @@ Definition c08_run {R} (ops : numops R) (op : Z) (names : nat * nat) (m : mat (R
   | _ => bad_case
   end.
 
+(* op 4: predicted presence of the f64 result, decided exactly over the rationals *)
+Definition c08_float_presence (which : Z) (m : mat (R := Q)) : sx :=
+  let yes := SL [SZ 1%Z] in
+  let no := SL [] in
+  match which with
+  | 1%Z => match ldlt Qops m with
+           | Some (_, d) =>
+               if forallb (fun i => nltb Qops (nzero Qops) (mget Qops d i i)) (seq 0 (mrows m))
+               then yes else no
+           | None => no
+           end
+  | 2%Z => match ldlt Qops m with Some _ => yes | None => no end
+  | 3%Z => if Nat.ltb (mrows m) (mcols m) then no else yes
+  | _ => bad_case
+  end.
+
 Definition run_c08 (args : list sx) : sx :=
   match args with
+  | [SZ 4%Z; SZ which; names; rows; cols; data; SZ scale] =>
+      match dpair dnat dnat names, dnat rows, dnat cols, dlist (ndec Qops) data with
+      | Some names, Some rows, Some cols, Some d =>
+          if Nat.eqb rows 0 || Nat.eqb cols 0 || Nat.eqb (fst names) (snd names)
+             || negb (Nat.eqb (length d) (rows * cols)) || Nat.ltb 8 rows || Nat.ltb 8 cols
+          then bad_case else c08_float_presence which (chunk rows cols d)
+      | _, _, _, _ => bad_case
+      end
   | [SZ op; SZ ty; names; rows; cols; data] =>
       match dpair dnat dnat names, dnat rows, dnat cols with
       | Some names, Some rows, Some cols =>
